@@ -74,12 +74,14 @@ type input struct {
 }
 
 type violation struct {
-	Kind      string `json:"kind"` // secret-leak | namespace-escape | wrong-key
+	Kind      string `json:"kind"` // secret-leak | namespace-escape | wrong-key | unbound-kid-selects-key | artefact-names-other-key | audit-names-other-key
 	Channel   string `json:"channel,omitempty"`
 	Op        string `json:"op,omitempty"`
 	NameClass string `json:"name_class,omitempty"`
 	Backend   string `json:"backend,omitempty"`
 	Jwk       string `json:"jwk,omitempty"` // class of the caller supplied jwk header whose secret part was echoed
+	KidClass  string `json:"kid_class,omitempty"` // class of the REQUEST key id no key is bound to
+	HdrKid    string `json:"hdr_kid,omitempty"`   // class of the caller supplied kid header
 	Detail    string `json:"detail"`
 	Step      int    `json:"step"`
 }
@@ -476,6 +478,7 @@ type run struct {
 	aliasN  int
 	sid     string
 	jwkClass string           // jwk header class of the current step (SignJWS)
+	hkClass  string           // class of the caller supplied kid header of the current step (SignJWT / SignJWS): none | same | other | unbound | empty
 	panics   []string         // operations of the current step that panicked
 	errs     []string         // texts of the errors / panics the operations of the current step returned
 	deleted map[string]string // abstract key -> kid whose key was deleted and not created again
@@ -657,6 +660,18 @@ func (r *run) verifySig(compact []byte, payload []byte, expectName string, reque
 	}
 	if !verify(exp.pub) {
 		r.violate(violation{Kind: "wrong-key", Detail: fmt.Sprintf("signature requested for %s does not verify with the public key of its key (%s)", requestedKid, expectName)})
+	}
+	// the kid WRITTEN INTO the artefact (if it carries one) must name the key that signed it: a verifier that resolves the key
+	// by that kid must get the signer's public key, whatever `kid` the caller put among the headers
+	if written, present := kidHeaderOf(compact); present {
+		r.res.Checks++
+		if owner := r.ownerOfKid(written); owner != expectName {
+			what := "to which no key is bound"
+			if owner != "" {
+				what = fmt.Sprintf("which is bound to another key (%s, kid %s)", owner, r.n.canaries[owner].kid)
+			}
+			r.violate(violation{Kind: "artefact-names-other-key", HdrKid: r.hkClass, Detail: fmt.Sprintf("the artefact signed with the key of %s (%s) carries the kid header %q %s", requestedKid, expectName, written, what)})
+		}
 	}
 	// ... and with no other key: the other keys of this script, plus the most recently created ones (bounded, the node
 	// accumulates hundreds of keys over a run)
@@ -880,23 +895,34 @@ func (r *run) exec(s step) (outcome string) {
 	case "SignJWT":
 		out := ""
 		var tok string
+		// the caller supplied headers may carry a kid of their own (hk): the store writes the id of the key it uses
+		hkVal, hkPresent, hkClass := r.hdrKid(k, s.str("hk"))
+		r.hkClass = hkClass
+		hdrs := map[string]interface{}{"typ": "JWT"}
+		if hkPresent {
+			hdrs["kid"] = hkVal
+		}
+		mark := n.logMark()
 		if err := r.try("SignJWT", func() error {
 			var err error
-			tok, err = n.ks.SignJWT(r.ctx(), map[string]interface{}{"iss": "verif", "sub": k}, map[string]interface{}{"typ": "JWT"}, kid)
+			tok, err = n.ks.SignJWT(r.ctx(), map[string]interface{}{"iss": "verif", "sub": k}, hdrs, kid)
 			return err
 		}); err == nil {
 			artefacts = append(artefacts, []byte(tok))
 			r.verifySig([]byte(tok), nil, r.pubOf[k], kid)
+			r.auditNamesSigner(n.auditSince(mark), kid, hkVal)
 			out = "inproc:signed "
 		} else {
 			out = "inproc:failed "
 		}
+		mark = n.logMark()
 		ex := note(n.do("POST", n.internal+"/internal/crypto/v1/sign_jwt", map[string]any{"kid": kid, "claims": map[string]any{"iss": "verif", "sub": k, "iat": time.Now().Unix()}}, ""))
 		if ex.status != 200 {
 			return out + fmt.Sprintf("http %d", ex.status)
 		}
 		artefacts = append(artefacts, ex.body)
 		r.verifySig(bytes.TrimSpace(ex.body), nil, r.pubOf[k], kid)
+		r.auditNamesSigner(n.auditSince(mark), kid, "")
 		return "signed " + out
 	case "SignJWS":
 		j := s.str("jwk")
@@ -927,14 +953,22 @@ func (r *run) exec(s step) (outcome string) {
 		if hdrMap != nil {
 			headers["jwk"] = hdrMap
 		}
+		// the caller supplied headers may carry a kid of their own (hk): the store writes the id of the key it uses
+		hkVal, hkPresent, hkClass := r.hdrKid(k, s.str("hk"))
+		r.hkClass = hkClass
+		if hkPresent {
+			headers["kid"] = hkVal
+		}
 		payload := []byte("payload-" + k)
 		out := ""
 		var produced [][]byte
 		// (1) through the HTTP API (jwk header arrives as a JSON object)
 		for _, detached := range []bool{false, true} {
+			mark := n.logMark()
 			ex := note(n.do("POST", n.internal+"/internal/crypto/v1/sign_jws", map[string]any{"kid": kid, "headers": headers, "payload": payload, "detached": detached}, ""))
 			out += fmt.Sprintf("http:%d ", ex.status)
 			if ex.status == 200 {
+				r.auditNamesSigner(n.auditSince(mark), kid, hkVal)
 				produced = append(produced, bytes.TrimSpace(ex.body))
 				if detached {
 					r.verifySig(bytes.TrimSpace(ex.body), payload, r.pubOf[k], kid)
@@ -949,12 +983,17 @@ func (r *run) exec(s step) (outcome string) {
 			if hdrKey != nil {
 				h2["jwk"] = hdrKey
 			}
+			if hkPresent {
+				h2["kid"] = hkVal
+			}
 			var sig string
+			mark := n.logMark()
 			err := r.try("SignJWS", func() error { var err error; sig, err = n.ks.SignJWS(r.ctx(), payload, h2, kid, detached); return err })
 			if err != nil {
 				out += "inproc:refused "
 				continue
 			}
+			r.auditNamesSigner(n.auditSince(mark), kid, hkVal)
 			out += "inproc:signed "
 			produced = append(produced, []byte(sig))
 			if hdrKey == nil { // with a jwk header the kid header is dropped and verification is by that jwk: not the store's business
@@ -1181,6 +1220,8 @@ func (r *run) exec(s step) (outcome string) {
 			return "not deleted"
 		}
 		return r.deletedCannotSign(k, &httpOut, &artefacts)
+	case "UseUnbound":
+		return r.useUnbound(s.str("kc"), &httpOut, &artefacts)
 	case "LinkKey":
 		to := s.str("to")
 		target := r.kid[k]
@@ -1222,6 +1263,224 @@ func (r *run) exec(s step) (outcome string) {
 		return out
 	}
 	return "unknown action"
+}
+
+// unboundKid builds the request key id of class kc. The near misses are derived from a key id (baseKid) and a storage name
+// (baseName) that exist in the store.
+func unboundKid(kc, baseKid, baseName, sid string) string {
+	switch kc {
+	case "empty":
+		return ""
+	case "unknown":
+		return "did:web:unbound.example.com:iam:" + sid + "#0"
+	case "prefix":
+		return baseKid[:len(baseKid)-1]
+	case "suffixed":
+		return baseKid + "0"
+	case "upper":
+		if up := strings.ToUpper(baseKid); up != baseKid {
+			return up
+		}
+		return strings.ToLower(baseKid)
+	case "padded":
+		return baseKid + " "
+	case "sqlwild":
+		return "%"
+	case "sqlany":
+		return baseKid[:len(baseKid)-1] + "_"
+	case "name":
+		return baseName
+	case "pct":
+		return strings.ReplaceAll(strings.ReplaceAll(url.PathEscape(baseKid), ":", "%3A"), "-", "%2D")
+	}
+	return "did:web:unbound.example.com:iam:" + sid + "#" + kc
+}
+
+// whoseKey: the storage name of the canary whose public key verifies the compact JWS / equals pub ("" if none).
+func (r *run) whoseKey(compact []byte, pub crypto.PublicKey) string {
+	names := make([]string, 0, len(r.n.canaries))
+	for name := range r.n.canaries {
+		names = append(names, name)
+	}
+	sort.Strings(names)
+	for _, name := range names {
+		c := r.n.canaries[name]
+		if c.pub == nil {
+			continue
+		}
+		if pub != nil && c.pubEqual(pub) {
+			return name
+		}
+		if compact != nil {
+			for _, alg := range []jwa.SignatureAlgorithm{jwa.ES256, jwa.ES384, jwa.ES512, jwa.PS256, jwa.EdDSA} {
+				if _, err := jws.Verify(compact, jws.WithKey(alg, c.pub)); err == nil {
+					return name
+				}
+			}
+		}
+	}
+	return ""
+}
+
+// useUnbound: every operation of the key store that selects a key by key id, requested for an id of class kc to which NO
+// key is bound while other keys (of this script and of the other "tenants" on the node) exist. None may select a key:
+// no signature, no decryption, no public key, "does not exist", and Delete removes nothing.
+func (r *run) useUnbound(kc string, httpOut, artefacts *[][]byte) string {
+	n := r.n
+	// a key of this script the near misses are derived from (deterministic choice), else ids that never existed
+	baseKid, baseName := "did:web:nobody.example.com:iam:"+r.sid+"#key-1", "verif-nobody-"+r.sid
+	var slots []string
+	for k := range r.kid {
+		slots = append(slots, k)
+	}
+	sort.Strings(slots)
+	for _, k := range slots {
+		if r.kid[k] != "" && r.deleted[k] == "" && r.pubOf[k] != "" {
+			baseKid, baseName = r.kid[k], r.pubOf[k]
+			break
+		}
+	}
+	x := unboundKid(kc, baseKid, baseName, r.sid)
+	// the harness' own reference: is a key bound to this id? (e.g. a migrated key is registered under its storage name)
+	var bound int64
+	n.db.Table("key_reference").Where("kid = ?", x).Count(&bound)
+	if bound > 0 {
+		return fmt.Sprintf("not applicable: a key is bound to %q", trunc(x, 60))
+	}
+	var rowsBefore int64
+	n.db.Table("key_reference").Count(&rowsBefore)
+	filesBefore := map[string]bool{}
+	if entries, err := os.ReadDir(n.keyDir()); err == nil {
+		for _, e := range entries {
+			filesBefore[e.Name()] = true
+		}
+	}
+	var selected []string
+	hit := func(op, detail string) {
+		selected = append(selected, op)
+		r.violate(violation{Kind: "unbound-kid-selects-key", KidClass: kc, Detail: fmt.Sprintf("%s for the key id %q (class %s), to which no key is bound: %s", op, trunc(x, 80), kc, detail)})
+	}
+	signedBy := func(compact []byte) string {
+		if name := r.whoseKey(compact, nil); name != "" {
+			return fmt.Sprintf("produced a signature that verifies with the key stored as %s (kid %s)", name, n.canaries[name].kid)
+		}
+		return "produced a signature"
+	}
+	r.res.Checks++
+	// Exists / Resolve
+	var exists bool
+	if err := r.try("Exists", func() error { var err error; exists, err = n.ks.Exists(r.ctx(), x); return err }); err == nil && exists {
+		hit("Exists", "the store says a key exists")
+	}
+	var pub crypto.PublicKey
+	if err := r.try("Resolve", func() error { var err error; pub, err = n.ks.Resolve(r.ctx(), x); return err }); err == nil && pub != nil {
+		hit("Resolve", fmt.Sprintf("returned the public key of the key stored as %s", r.whoseKey(nil, pub)))
+	}
+	// sign: JWT, JWS, DPoP
+	var tok string
+	if err := r.try("SignJWT", func() error {
+		var err error
+		tok, err = n.ks.SignJWT(r.ctx(), map[string]interface{}{"iss": "verif"}, map[string]interface{}{"typ": "JWT"}, x)
+		return err
+	}); err == nil {
+		*artefacts = append(*artefacts, []byte(tok))
+		hit("SignJWT", signedBy([]byte(tok)))
+	}
+	if err := r.try("SignJWS", func() error {
+		var err error
+		tok, err = n.ks.SignJWS(r.ctx(), []byte("payload"), map[string]interface{}{"typ": "verif"}, x, false)
+		return err
+	}); err == nil {
+		*artefacts = append(*artefacts, []byte(tok))
+		hit("SignJWS", signedBy([]byte(tok)))
+	}
+	req, _ := http.NewRequest("GET", "https://resource.example.com/x", nil)
+	if err := r.try("SignDPoP", func() error { var err error; tok, err = n.ks.SignDPoP(r.ctx(), *dpop.New(*req), x); return err }); err == nil {
+		*artefacts = append(*artefacts, []byte(tok))
+		hit("SignDPoP", signedBy([]byte(tok)))
+	}
+	// decrypt: cipher texts made for the keys of this script (a success means one of their private keys was selected)
+	cts := [][]byte{[]byte("not a cipher text")}
+	var jwes []string
+	for _, k := range slots {
+		c := n.canaries[r.pubOf[k]]
+		if c == nil || c.pub == nil {
+			continue
+		}
+		if ecPub, ok := c.pub.(*ecdsa.PublicKey); ok && ecPub.Curve == elliptic.P256() {
+			if ct, err := nutsCrypto.EciesEncrypt(ecPub, []byte("for-"+k)); err == nil {
+				cts = append(cts, ct)
+			}
+		}
+		if x != "" {
+			if msg, err := n.ks.EncryptJWE(r.ctx(), []byte("jwe-for-"+k), map[string]interface{}{"kid": x}, c.pub); err == nil {
+				jwes = append(jwes, msg)
+			}
+		}
+	}
+	for _, ct := range cts {
+		ct := ct
+		var plain []byte
+		if err := r.try("Decrypt", func() error { var err error; plain, err = n.ks.Decrypt(r.ctx(), x, ct); return err }); err == nil {
+			*httpOut = append(*httpOut, plain)
+			hit("Decrypt", fmt.Sprintf("decrypted %d bytes", len(plain)))
+			break
+		}
+	}
+	for _, msg := range jwes {
+		msg := msg
+		var body []byte
+		if err := r.try("DecryptJWE", func() error { var err error; body, _, err = n.ks.DecryptJWE(r.ctx(), msg); return err }); err == nil {
+			*httpOut = append(*httpOut, body)
+			hit("DecryptJWE", fmt.Sprintf("decrypted %d bytes", len(body)))
+			break
+		}
+	}
+	// the HTTP API
+	ex := n.do("POST", n.internal+"/internal/crypto/v1/sign_jwt", map[string]any{"kid": x, "claims": map[string]any{"iss": "verif"}}, "")
+	*httpOut = append(*httpOut, ex.all)
+	if ex.status == 200 {
+		*artefacts = append(*artefacts, ex.body)
+		hit("POST sign_jwt", signedBy(bytes.TrimSpace(ex.body)))
+	}
+	ex = n.do("POST", n.internal+"/internal/crypto/v1/sign_jws", map[string]any{"kid": x, "headers": map[string]any{"typ": "verif"}, "payload": []byte("payload")}, "")
+	*httpOut = append(*httpOut, ex.all)
+	if ex.status == 200 {
+		*artefacts = append(*artefacts, ex.body)
+		hit("POST sign_jws", signedBy(bytes.TrimSpace(ex.body)))
+	}
+	if !strings.Contains(x, "%") { // the path parameter is unescaped by the handler: an id with '%' would be another id there
+		ex = n.do("POST", n.internal+"/internal/auth/v2/dpop/"+url.PathEscape(x), map[string]any{"htm": "POST", "htu": "https://resource.example.com/token", "token": "access-token"}, "")
+		*httpOut = append(*httpOut, ex.all)
+		if ex.status == 200 {
+			var resp struct {
+				Dpop string `json:"dpop"`
+			}
+			_ = json.Unmarshal(ex.body, &resp)
+			*artefacts = append(*artefacts, []byte(resp.Dpop))
+			hit("POST dpop/{kid}", signedBy([]byte(resp.Dpop)))
+		}
+	}
+	// Delete, last: it must remove nothing
+	if err := r.try("Delete", func() error { return n.ks.Delete(r.ctx(), x) }); err == nil {
+		hit("Delete", "reported success")
+	}
+	var rowsAfter int64
+	n.db.Table("key_reference").Count(&rowsAfter)
+	var lost []string
+	for name := range filesBefore {
+		if _, err := os.Stat(filepath.Join(n.keyDir(), name)); err != nil {
+			lost = append(lost, name)
+		}
+	}
+	if rowsAfter < rowsBefore || len(lost) > 0 {
+		sort.Strings(lost)
+		hit("Delete", fmt.Sprintf("removed %d key reference(s) and the key file(s) %v", rowsBefore-rowsAfter, lost))
+	}
+	if len(selected) > 0 {
+		return "unbound kid selected a key: " + strings.Join(selected, ",")
+	}
+	return "unbound kid refused"
 }
 
 // deletedCannotSign: every operation that needs the private key of a deleted kid must fail.
@@ -1396,6 +1655,111 @@ func kidOfJWS(compact string) string {
 	}
 	k, _ := h["kid"].(string)
 	return k
+}
+
+// kidHeaderOf returns the `kid` member of the protected header of a compact JWS and whether the header has one at all.
+func kidHeaderOf(compact []byte) (string, bool) {
+	var h map[string]any
+	if json.Unmarshal(protectedHeaderOf(compact), &h) != nil {
+		return "", false
+	}
+	v, present := h["kid"]
+	k, _ := v.(string)
+	return k, present
+}
+
+// hdrKid maps the caller supplied kid header of a step (hk: none | empty | unbound | an abstract key) to the header value.
+func (r *run) hdrKid(k, hk string) (value string, present bool, class string) {
+	switch hk {
+	case "", "none":
+		return "", false, "none"
+	case "empty":
+		return "", true, "empty"
+	case "unbound":
+		return "did:web:unbound.example.com:iam:" + r.sid + "#hk", true, "unbound"
+	case k:
+		return r.kid[k], true, "same"
+	}
+	if v := r.kid[hk]; v != "" {
+		return v, true, "other" // another key's id (its key may exist, be deleted, or be the same key under an alias)
+	}
+	return "did:web:unbound.example.com:iam:" + r.sid + "#" + hk, true, "other"
+}
+
+// logMark / auditSince: the audit records written between two points in time (the log file is shared with scanAll, which
+// consumes it at the end of the step; this only peeks).
+func (n *nodeEnv) logMark() int64 {
+	_ = n.logFile.Sync()
+	st, err := os.Stat(n.logFile.Name())
+	if err != nil {
+		return n.logOffset
+	}
+	return st.Size()
+}
+
+func (n *nodeEnv) auditSince(mark int64) [][]byte {
+	end := n.logMark()
+	if end <= mark {
+		return nil
+	}
+	buf := make([]byte, end-mark)
+	f, err := os.Open(n.logFile.Name())
+	if err != nil {
+		return nil
+	}
+	defer f.Close()
+	_, _ = f.ReadAt(buf, mark)
+	var out [][]byte
+	for _, line := range bytes.Split(buf, []byte("\n")) {
+		if bytes.Contains(line, []byte("level=audit")) || bytes.Contains(line, []byte(`"level":"audit"`)) {
+			out = append(out, line)
+		}
+	}
+	return out
+}
+
+// auditNamesSigner: the audit records of a signature made with the key of signerKid. Where they name key ids this script
+// knows (the requested one, the other keys' ids, the kid the caller put among the headers), the id of the key that was
+// really used must be among them: an audit trail that attributes the signature to another key only is wrong. Records
+// that name no known id at all are not judged (the property does not prescribe their wording).
+func (r *run) auditNamesSigner(lines [][]byte, signerKid string, hdrKid string) {
+	if len(lines) == 0 || signerKid == "" {
+		return
+	}
+	r.res.Checks++
+	known := map[string]bool{}
+	for _, id := range r.kid {
+		known[id] = true
+	}
+	for _, id := range r.deleted {
+		known[id] = true
+	}
+	known[hdrKid] = true
+	delete(known, "")
+	delete(known, signerKid)
+	// ids of which the signer's id is a part do not count as "another" id (and vice versa)
+	var others []string
+	for id := range known {
+		if len(id) >= 8 && !strings.Contains(signerKid, id) && !strings.Contains(id, signerKid) {
+			others = append(others, id)
+		}
+	}
+	sort.Strings(others)
+	namesSigner := false
+	var named []string
+	for _, line := range lines {
+		if bytes.Contains(line, []byte(signerKid)) {
+			namesSigner = true
+		}
+		for _, id := range others {
+			if bytes.Contains(line, []byte(id)) {
+				named = append(named, id)
+			}
+		}
+	}
+	if !namesSigner && len(named) > 0 {
+		r.violate(violation{Kind: "audit-names-other-key", HdrKid: r.hkClass, Detail: fmt.Sprintf("the audit record(s) of a signature made with the key of %s name %v and not the key that was used: %s", signerKid, named, trunc(string(lines[0]), 300))})
+	}
 }
 
 // ownerOfKid returns the storage name of the key the key reference of kid CURRENTLY points at ("" if none / not a canary).
@@ -1655,7 +2019,7 @@ func (n *nodeEnv) runScript(sc script) (res result) {
 		}
 	}()
 	for i, s := range sc.Steps {
-		r.stepNo, r.op, r.jwkClass = i, s.str("a"), s.str("jwk")
+		r.stepNo, r.op, r.jwkClass, r.hkClass = i, s.str("a"), s.str("jwk"), ""
 		out := r.exec(s)
 		for _, pn := range r.panics {
 			res.Drift = append(res.Drift, fmt.Sprintf("PANIC in %s during %s (key family %s)", pn, s.str("a"), r.famOf(s.str("k"))))
@@ -1663,7 +2027,7 @@ func (n *nodeEnv) runScript(sc script) (res result) {
 		}
 		res.Ops = append(res.Ops, opResult{A: s.str("a"), Outcome: out})
 		ev := map[string]any{"ev": "op", "a": s.str("a"), "leak": len(res.Violations) > 0}
-		for _, key := range []string{"k", "jwk", "to", "nc", "b", "fam", "via"} {
+		for _, key := range []string{"k", "jwk", "to", "nc", "b", "fam", "via", "hk", "kc"} {
 			if v := s.str(key); v != "" {
 				ev[key] = v
 			}
